@@ -395,16 +395,22 @@ class Robust:
                                                                   b"(", n, b"f", b")", b"\";}}")))
             A(out, "deep-yang-iffeature-not/%d" % n, L("yang", rep(b"module d {yang-version 1.1; namespace urn:d; prefix d; feature f; leaf l {type string; if-feature \"",
                                                                 b"not ", n, b"f", b"", b"\";}}")))
-            A(out, "deep-yang-must-paren/%d" % n, L("yang", rep(b"module d {namespace urn:d; prefix d; leaf l {type string; must \"", b"(", n, b"1", b")", b"\";}}")))
-            A(out, "deep-yang-when-not/%d" % n, L("yang", rep(b"module d {namespace urn:d; prefix d; leaf l {type string; when \"", b"not(", n, b"1", b")", b"\";}}")))
+            if n <= 10000:
+                A(out, "deep-yang-must-paren/%d" % n, L("yang", rep(b"module d {namespace urn:d; prefix d; leaf l {type string; must \"", b"(", n, b"1", b")", b"\";}}")))
+            if n <= 10000:
+                A(out, "deep-yang-when-not/%d" % n, L("yang", rep(b"module d {namespace urn:d; prefix d; leaf l {type string; when \"", b"not(", n, b"1", b")", b"\";}}")))
             A(out, "deep-yang-pattern-paren/%d" % n, L("yang", rep(b"module d {namespace urn:d; prefix d; leaf l {type string {pattern '", b"(", n, b"a", b")", b"';}}}")))
-            A(out, "deep-yang-leafref/%d" % n, L("yang", rep(b"module d {namespace urn:d; prefix d; leaf t {type string;} leaf l {type leafref {path \"",
+            if n <= 10000:
+                A(out, "deep-yang-leafref/%d" % n, L("yang", rep(b"module d {namespace urn:d; prefix d; leaf t {type string;} leaf l {type leafref {path \"",
                                                           b"../", n, b"t", b"", b"\";}}}")))
             A(out, "deep-yin-container/%d" % n, L("yin", rep(b'<module name="d" xmlns="urn:ietf:params:xml:ns:yang:yin:1"><namespace uri="urn:d"/><prefix value="d"/>',
                                                             b'<container name="c">', n, b'<leaf name="l"><type name="string"/></leaf>', b"</container>", b"</module>")))
             A(out, "deep-yin-unknown/%d" % n, L("yin", rep(b'<module name="d" xmlns="urn:ietf:params:xml:ns:yang:yin:1"><namespace uri="urn:d"/><prefix value="d"/>',
                                                           b'<x:e xmlns:x="urn:x">', n, b"", b"</x:e>", b"</module>")))
-            for e in ("xfind", "xeval", "sxfind"):
+            # XPath texts: the tokenizer is quadratic under ASan (string interceptors), 10 k tokens take 1-2 s there and
+            # 100 k several minutes (release build: < 1 s except the flat or / union / unary minus chains, 8 s); the
+            # depth limits of the XPath parser are reached at 10 k already
+            for e in (("xfind", "xeval", "sxfind") if n <= 10000 else ()):
                 A(out, "deep-xpath-paren/%d" % n, L(e, rep(b"", b"(", n, b"1", b")", b"")))
                 A(out, "deep-xpath-not/%d" % n, L(e, rep(b"", b"not(", n, b"1", b")", b"")))
                 A(out, "deep-xpath-pred/%d" % n, L(e, rep(b"/rb:top", b"[rb:item", n, b"", b"]", b"")))
@@ -416,12 +422,18 @@ class Robust:
                 A(out, "deep-xpath-steps/%d" % n, L(e, rep(b"/rb:top", b"/..", n, b"", b"", b"")))
                 A(out, "deep-xpath-dslash/%d" % n, L(e, rep(b"", b"//*", min(n, 1000), b"", b"", b"")))
                 A(out, "deep-xpath-parent-pred/%d" % n, L(e, rep(b"/rb:top/rb:item", b"[..", n, b"", b"]", b"")))
-            A(out, "deep-path-steps/%d" % n, L("fpath", rep(b"", b"/rb:top", n, b"", b"", b"")))
-            A(out, "deep-path-pred/%d" % n, L("fpath", rep(b"/rb:top/item", b"[id='1']", n, b"", b"", b"")))
-            A(out, "deep-npath-steps/%d" % n, L("npath", "~", rep(b"/rb:top", b"/rb:item", n, b"", b"", b"")))
-            A(out, "deep-iid-pred/%d" % n, L("value", "iid", rep(b"/rb:top/rb:item", b"[rb:id='1']", n, b"", b"", b"")))
-            A(out, "deep-iid-steps/%d" % n, L("value", "iid", rep(b"", b"/rb:top", n, b"", b"", b"")))
-            A(out, "deep-xp-value/%d" % n, L("value", "xp", rep(b"", b"(", n, b"1", b")", b"")))
+            if n <= 10000:
+                A(out, "deep-path-steps/%d" % n, L("fpath", rep(b"", b"/rb:top", n, b"", b"", b"")))
+            if n <= 10000:
+                A(out, "deep-path-pred/%d" % n, L("fpath", rep(b"/rb:top/item", b"[id='1']", n, b"", b"", b"")))
+            if n <= 10000:
+                A(out, "deep-npath-steps/%d" % n, L("npath", "~", rep(b"/rb:top", b"/rb:item", n, b"", b"", b"")))
+            if n <= 10000:
+                A(out, "deep-iid-pred/%d" % n, L("value", "iid", rep(b"/rb:top/rb:item", b"[rb:id='1']", n, b"", b"", b"")))
+            if n <= 10000:
+                A(out, "deep-iid-steps/%d" % n, L("value", "iid", rep(b"", b"/rb:top", n, b"", b"", b"")))
+            if n <= 10000:
+                A(out, "deep-xp-value/%d" % n, L("value", "xp", rep(b"", b"(", n, b"1", b")", b"")))
             A(out, "deep-pattern-paren/%d" % n, L("pattern", rep(b"", b"(", n, b"a", b")", b""), hexs(b"a")))
             A(out, "deep-pattern-class/%d" % n, L("pattern", hexs(b"[a-z-[aeiou]]" * min(n, 10000)), hexs(b"b" * min(n, 10000))))
             A(out, "deep-pattern-bracket/%d" % n, L("pattern", rep(b"", b"[", n, b"a", b"]", b""), hexs(b"a")))
